@@ -30,8 +30,8 @@ ASSUMPTIONS = [
     'modelled by the hand-written Gallina lexer+parser; validated by the three-way differential, not verified',
     'lexer/parser split: a context-free lexer stands for the scannerless parser; texts where they can differ '
     '(`%s` glued to a following word, a non-ASCII digit, ...) are outside the printer image and measured on the mutation stream',
-    'an invalid calendar date literal makes strptime raise ValueError inside the semantic action; the model rejects the text '
-    '(exception class is the concern of C05)',
+    'a date-shaped literal that is not a calendar date fails the date rule (FailedSemantics); the text is then read by the '
+    'following alternatives (2020-13-45 is 2020 - 13 - 45); modelled in the lexer',
     'alphabet: code points of the BMP; Unicode decimal digits other than 0-9 (accepted by \\d) are not generated',
     'the in-process parser is tatsu.compile(bql.ebnf) run with BQLSemantics; TatSu passes rule parameters of an interpreted '
     'grammar as one string "Neg::UnaryOp", the harness adapter keeps the first component (as the generated code does)',
